@@ -327,6 +327,15 @@ Proof.
       apply (hread_holds _ _ c); try assumption; lia.
 Qed.
 
+Lemma wr_ok_finish h dst c' ulen :
+  0 <= dst < zlen h -> 0 <= ulen -> ulen + 1 <= zlen c' ->
+  Forall (wr_ok (hset h dst (mkblk c' true))) [mkwr dst 0 ulen; mkwr dst ulen 1].
+Proof.
+  intros Hd Hu Hc.
+  repeat constructor; exists (mkblk c' true); cbn [w_id w_off w_len blive bcells];
+    (split; [apply znth_hset_eq; lia|]); repeat split; lia.
+Qed.
+
 (* ------------------------------------------------------------------ building the invariant *)
 Lemma build_inline n l0 h r lg ic bs :
   0 <= l0 -> zlen bs = n -> n <= l0 ->
@@ -382,9 +391,9 @@ Proof.
   { right. unfold same_store. repeat split; auto. left; lia. }
   assert (Hok : src_ok s bs0 src ulen nb) by (apply Hsrc; lia).
   assert (Hzf : zlen nb = ulen) by (apply Hok).
-  (* an own-buffer source never asks for more than the node holds *)
-  assert (Hown : forall id off, src = PHeap id off -> comp s = Some id /\ ulen <= zlen bs0).
-  { intros id off ->. destruct Hok as (_ & Hc & Ho & Hin2 & _). split; [assumption|lia]. }
+  (* an own-buffer source points into the block the accessors read *)
+  assert (Hown : forall id off, src = PHeap id off -> comp s = Some id).
+  { intros id off ->. destruct Hok as (_ & Hc & _). assumption. }
   pose proof (znth_range _ _ _ Hz0) as R0.
   unfold slen_abs in Habs.
   destruct (slen s <? 0) eqn:Eneg.
@@ -401,7 +410,7 @@ Proof.
       unfold comp. cbn [slen]. cbn [Z.ltb Z.compare Z.gtb].
       set (h' := hset (hp s) p (mkblk pc false)).
       assert (Hz0' : znth h' 0 = Some (mkblk ic true)) by (subst h'; rewrite znth_hset_neq by lia; exact Hz0).
-      assert (Hrd : src_read h' src 0 0 = Some (map Some nb)).
+      assert (Hrd : src_read h' src 0 = Some (map Some nb)).
       { apply (src_read_ok s bs0); [assumption|lia|]. intros; left; reflexivity. }
       destruct (finish_spec (mkst 0 (ilen0 s) (Some p) h' (reqs s) (EvFree p :: elog s)) 0 src 0 0 ic nb Hz0' Hrd)
         as (c' & Hf & Hh' & Hlc'); [assumption|unfold PTRSZ in *; lia|].
@@ -423,49 +432,53 @@ Proof.
         destruct (al (reqs s) (ulen + 1)) eqn:Eal.
         -- unfold hmalloc. cbv beta iota. rewrite ?Eneg, ?Hp.
            set (h1 := hp s ++ [mkblk (zrepeat None (ulen + 1)) true]). set (id := zlen (hp s)).
-           assert (Hzp1 : znth h1 p = Some (mkblk pc true)) by (subst h1; rewrite znth_app_l by lia; exact Hzp).
-           rewrite (hfree_ok _ _ pc Hzp1).
-           set (h2 := hset h1 p (mkblk pc false)).
            assert (L1 : zlen h1 = zlen (hp s) + 1) by (subst h1; rewrite zlen_app; reflexivity).
+           assert (Hzp1 : znth h1 p = Some (mkblk pc true)) by (subst h1; rewrite znth_app_l by lia; exact Hzp).
+           assert (Hzid : znth h1 id = Some (mkblk (zrepeat None (ulen + 1)) true)) by (subst h1 id; apply znth_app_last).
+           (* the new buffer is filled while the old one is still there *)
+           assert (Hrd : src_read h1 src ulen = Some (map Some nb)).
+           { apply (src_read_ok s bs0); [assumption|lia|]. intros i o E. right.
+             pose proof (Hown i o E) as Hc. rewrite Hcomp in Hc. inversion Hc; subst i.
+             exists pc. split; assumption. }
+           destruct (fill_spec h1 id src ulen _ nb Hzid Hrd Hzf) as (c' & Hf & Hh' & Hlc');
+             [rewrite zlen_zrepeat; lia|].
+           rewrite zlen_zrepeat in Hlc'. rewrite Hf.
+           set (h1' := hset h1 id (mkblk c' true)).
+           assert (Hzp1' : znth h1' p = Some (mkblk pc true)) by (subst h1'; rewrite znth_hset_neq by lia; exact Hzp1).
+           rewrite (hfree_ok _ _ pc Hzp1').
+           set (h2 := hset h1' p (mkblk pc false)).
            assert (Hz02 : znth h2 0 = Some (mkblk ic true)).
-           { subst h2. rewrite znth_hset_neq by lia. subst h1. rewrite znth_app_l by lia. exact Hz0. }
+           { subst h2 h1'. rewrite !znth_hset_neq by lia. subst h1. rewrite znth_app_l by lia. exact Hz0. }
            rewrite (hstore_ok _ _ ic _ _ Hz02) by (rewrite ?zlen_zrepeat; unfold PTRSZ in *; lia).
            set (ic' := cstore ic 0 (zrepeat None PTRSZ)).
            assert (Lic' : zlen ic' = zlen ic) by (subst ic'; apply zlen_cstore; rewrite ?zlen_zrepeat; unfold PTRSZ in *; lia).
            set (h3 := hset h2 0 (mkblk ic' true)).
-           assert (Hzid : znth h3 id = Some (mkblk (zrepeat None (ulen + 1)) true)).
-           { subst h3 h2. rewrite !znth_hset_neq by lia. subst h1 id. apply znth_app_last. }
-           assert (Hrd : src_read h3 src id ulen = Some (map Some nb)).
-           { apply (src_read_ok s bs0); [assumption|lia|]. intros i o E. exfalso.
-             destruct (Hown i o E) as [_ Hle2]. lia. }
-           destruct (finish_spec (mkst (slen s) (ilen0 s) (Some id) h3 (reqs s + 1)
-                                   ([EvFree p] ++ EvMalloc id (ulen + 1) :: elog s)) id src ulen (- ulen) _ nb Hzid Hrd)
-             as (c' & Hf & Hh' & Hlc'); [assumption|rewrite zlen_zrepeat; lia|].
-           rewrite zlen_zrepeat in Hlc'.
-           cbn [slen ilen0 pptr hp reqs elog] in Hf. rewrite Hf. cbn [set_post].
-           assert (Eid : (id =? 0) = false) by lia. rewrite Eid.
+           assert (L3 : zlen h3 = zlen (hp s) + 1) by (subst h3 h2 h1'; rewrite !zlen_hset; exact L1).
+           assert (Hzid3 : znth h3 id = Some (mkblk c' true)).
+           { subst h3 h2. rewrite !znth_hset_neq by lia. subst h1'. apply znth_hset_eq. lia. }
+           cbn [set_post].
            left. split; [reflexivity|]. cbn [hp ilen0]. split; [|split; [lia|split; [|reflexivity]]].
            ++ apply (build_sep ulen (ilen0 s) id _ _ _ ic' c'); try assumption; try lia.
-              ** rewrite znth_hset_neq by lia. subst h3. apply znth_hset_eq. subst h2. rewrite zlen_hset. lia.
-              ** apply znth_hset_eq. subst h3 h2. rewrite !zlen_hset. lia.
-              ** intros j b A B. apply znth_hset_inv in A; [|lia]. destruct A as [[-> _]|[Hne A]]; [right; reflexivity|].
-                 subst h3. apply znth_hset_inv in A; [|lia]. destruct A as [[-> _]|[Hne2 A]]; [left; reflexivity|].
-                 subst h2. apply znth_hset_inv in A; [|lia]. destruct A as [[-> ->]|[Hne3 A]]; [discriminate|].
+              ** subst h3. apply znth_hset_eq. subst h2 h1'. rewrite !zlen_hset. lia.
+              ** intros j b A B. subst h3. apply znth_hset_inv in A; [|lia]. destruct A as [[-> _]|[Hne A]]; [left; reflexivity|].
+                 subst h2. apply znth_hset_inv in A; [|lia]. destruct A as [[-> ->]|[Hne2 A]]; [discriminate|].
+                 subst h1'. apply znth_hset_inv in A; [|lia]. destruct A as [[-> _]|[Hne3 A]]; [right; reflexivity|].
                  subst h1. apply znth_app_inv in A. destruct A as [[-> _]|[Hlt A]]; [contradiction|].
                  destruct (Hlive j b A B) as [->|[_ Hj]]; [contradiction|]. congruence.
               ** cbn [app log_ok live_of_log]. rewrite Hll, Hlok, Hnm. cbn [zmem].
                  rewrite !Z.eqb_refl. assert (E1 : (0 <=? ulen + 1) = true) by lia. rewrite E1.
                  rewrite Bool.orb_true_r. reflexivity.
-              ** cbn [app nmalloc]. subst h3 h2. rewrite !zlen_hset. lia.
+              ** cbn [app nmalloc]. lia.
               ** cbn [app live_of_log]. rewrite Hll. cbn [zremove].
                  assert (E1 : (p =? id) = false) by lia. rewrite E1, Z.eqb_refl. reflexivity.
-           ++ apply wr_ok_finish; subst h3 h2; rewrite ?zlen_hset; lia.
+           ++ repeat constructor; exists (mkblk c' true); cbn [w_id w_off w_len blive bcells];
+                (split; [exact Hzid3|]); repeat split; lia.
         -- cbn [set_post]. right. unfold same_store, slen_abs. cbn [slen ilen0 pptr hp elog]. rewrite Eneg.
            repeat split; auto. right. split; [assumption|lia].
       * (* fits what is remembered of the separate buffer: reuse it *)
-        assert (Hrd : src_read (hp s) src p ulen = Some (map Some nb)).
+        assert (Hrd : src_read (hp s) src ulen = Some (map Some nb)).
         { apply (src_read_ok s bs0); [assumption|lia|]. intros i o E. right.
-          destruct (Hown i o E) as [Hc _]. rewrite Hcomp in Hc. inversion Hc; subst i.
+          pose proof (Hown i o E) as Hc. rewrite Hcomp in Hc. inversion Hc; subst i.
           exists pc. split; assumption. }
         destruct (finish_spec s p src ulen (- ulen) pc nb Hzp Hrd) as (c' & Hf & Hh' & Hlc'); [assumption|lia|].
         rewrite Hf. cbn [set_post]. assert (Ep : (p =? 0) = false) by lia. rewrite Ep, Hp.
@@ -488,40 +501,44 @@ Proof.
         set (h1 := hp s ++ [mkblk (zrepeat None (ulen + 1)) true]). set (id := zlen (hp s)).
         assert (L1 : zlen h1 = zlen (hp s) + 1) by (subst h1; rewrite zlen_app; reflexivity).
         assert (Hz01 : znth h1 0 = Some (mkblk ic true)) by (subst h1; rewrite znth_app_l by lia; exact Hz0).
-        rewrite (hstore_ok _ _ ic _ _ Hz01) by (rewrite ?zlen_zrepeat; unfold PTRSZ in *; lia).
+        assert (Hzid : znth h1 id = Some (mkblk (zrepeat None (ulen + 1)) true)) by (subst h1 id; apply znth_app_last).
+        (* the new buffer is filled before the pointer overwrites the inline bytes *)
+        assert (Hrd : src_read h1 src ulen = Some (map Some nb)).
+        { apply (src_read_ok s bs0); [assumption|lia|]. intros i o E. right.
+          pose proof (Hown i o E) as Hc. rewrite Hcomp in Hc. inversion Hc; subst i.
+          exists ic. split; assumption. }
+        destruct (fill_spec h1 id src ulen _ nb Hzid Hrd Hzf) as (c' & Hf & Hh' & Hlc');
+          [rewrite zlen_zrepeat; lia|].
+        rewrite zlen_zrepeat in Hlc'. rewrite Hf.
+        set (h1' := hset h1 id (mkblk c' true)).
+        assert (Hz01' : znth h1' 0 = Some (mkblk ic true)) by (subst h1'; rewrite znth_hset_neq by lia; exact Hz01).
+        rewrite (hstore_ok _ _ ic _ _ Hz01') by (rewrite ?zlen_zrepeat; unfold PTRSZ in *; lia).
         set (ic' := cstore ic 0 (zrepeat None PTRSZ)).
         assert (Lic' : zlen ic' = zlen ic) by (subst ic'; apply zlen_cstore; rewrite ?zlen_zrepeat; unfold PTRSZ in *; lia).
-        set (h3 := hset h1 0 (mkblk ic' true)).
-        assert (Hzid : znth h3 id = Some (mkblk (zrepeat None (ulen + 1)) true)).
-        { subst h3. rewrite !znth_hset_neq by lia. subst h1 id. apply znth_app_last. }
-        assert (Hrd : src_read h3 src id ulen = Some (map Some nb)).
-        { apply (src_read_ok s bs0); [assumption|lia|]. intros i o E. exfalso.
-          destruct (Hown i o E) as [_ Hle2]. lia. }
-        destruct (finish_spec (mkst (slen s) (ilen0 s) (Some id) h3 (reqs s + 1)
-                                ([] ++ EvMalloc id (ulen + 1) :: elog s)) id src ulen (- ulen) _ nb Hzid Hrd)
-          as (c' & Hf & Hh' & Hlc'); [assumption|rewrite zlen_zrepeat; lia|].
-           rewrite zlen_zrepeat in Hlc'.
-        cbn [slen ilen0 pptr hp reqs elog] in Hf. rewrite Hf. cbn [set_post].
-        assert (Eid : (id =? 0) = false) by lia. rewrite Eid.
+        set (h3 := hset h1' 0 (mkblk ic' true)).
+        assert (L3 : zlen h3 = zlen (hp s) + 1) by (subst h3 h1'; rewrite !zlen_hset; exact L1).
+        assert (Hzid3 : znth h3 id = Some (mkblk c' true)).
+        { subst h3. rewrite !znth_hset_neq by lia. subst h1'. apply znth_hset_eq. lia. }
+        cbn [set_post].
         left. split; [reflexivity|]. cbn [hp ilen0]. split; [|split; [lia|split; [|reflexivity]]].
         -- apply (build_sep ulen (ilen0 s) id _ _ _ ic' c'); try assumption; try lia.
-           ** rewrite znth_hset_neq by lia. subst h3. apply znth_hset_eq. lia.
-           ** apply znth_hset_eq. subst h3. rewrite !zlen_hset. lia.
-           ** intros j b A B. apply znth_hset_inv in A; [|lia]. destruct A as [[-> _]|[Hne A]]; [right; reflexivity|].
-              subst h3. apply znth_hset_inv in A; [|lia]. destruct A as [[-> _]|[Hne2 A]]; [left; reflexivity|].
+           ** subst h3. apply znth_hset_eq. subst h1'. rewrite !zlen_hset. lia.
+           ** intros j b A B. subst h3. apply znth_hset_inv in A; [|lia]. destruct A as [[-> _]|[Hne A]]; [left; reflexivity|].
+              subst h1'. apply znth_hset_inv in A; [|lia]. destruct A as [[-> _]|[Hne2 A]]; [right; reflexivity|].
               subst h1. apply znth_app_inv in A. destruct A as [[-> _]|[Hlt A]]; [contradiction|].
               destruct (Hlive j b A B) as [->|[Hj _]]; [contradiction|lia].
            ** cbn [app log_ok]. rewrite Hlok, Hnm. rewrite Z.eqb_refl.
               assert (E1 : (0 <=? ulen + 1) = true) by lia. rewrite E1. reflexivity.
-           ** cbn [app nmalloc]. subst h3. rewrite !zlen_hset. lia.
+           ** cbn [app nmalloc]. lia.
            ** cbn [app live_of_log]. rewrite Hll. reflexivity.
-        -- apply wr_ok_finish; subst h3; rewrite ?zlen_hset; lia.
+        -- repeat constructor; exists (mkblk c' true); cbn [w_id w_off w_len blive bcells];
+             (split; [exact Hzid3|]); repeat split; lia.
       * cbn [set_post]. right. unfold same_store, slen_abs. cbn [slen ilen0 pptr hp elog]. rewrite Eneg.
         repeat split; auto. right. split; [assumption|lia].
     + (* fits the current inline contents *)
-      assert (Hrd : src_read (hp s) src 0 ulen = Some (map Some nb)).
+      assert (Hrd : src_read (hp s) src ulen = Some (map Some nb)).
       { apply (src_read_ok s bs0); [assumption|lia|]. intros i o E. right.
-        destruct (Hown i o E) as [Hc _]. rewrite Hcomp in Hc. inversion Hc; subst i.
+        pose proof (Hown i o E) as Hc. rewrite Hcomp in Hc. inversion Hc; subst i.
         exists ic. split; assumption. }
       destruct (finish_spec s 0 src ulen ulen ic nb Hz0 Hrd) as (c' & Hf & Hh' & Hlc'); [assumption|unfold PTRSZ in *; lia|].
       rewrite Hf. cbn [set_post Z.eqb].
@@ -585,17 +602,15 @@ Proof. intros H. unfold contents. destruct (inv_read_bytes _ _ H) as [-> _]. ref
 (* caller contract, relative to the contents [c] at the call: the int argument is an int; a
    length that is not refused is readable at the source; a strlen-based source is
    NUL-terminated; a source inside the node's own buffer (json_object_get_string(o) + off)
-   stays inside the contents and either starts at their first byte (truncation in place) or
-   is at least its own length away from it (no partial overlap of the copy) *)
+   stays inside the contents and their terminator; it may overlap the destination *)
 Definition op_wf (c : list byte) (o : sop) : Prop :=
   match o with
   | OpSetLen bs len => INT_MIN <= len <= INT_MAX /\ (0 <= len < INT_MAX - 1 -> len <= zlen bs)
   | OpSet bs => In 0 bs
   | OpSetOwnLen off len =>
       INT_MIN <= len <= INT_MAX /\ 0 <= off <= zlen c /\
-      (0 <= len < INT_MAX - 1 -> off + len <= zlen c /\ (off = 0 \/ len <= off))
-  | OpSetOwn off =>
-      0 <= off <= zlen c /\ (off = 0 \/ zlen (cstr (zskipn off c ++ [0])) <= off)
+      (0 <= len < INT_MAX - 1 -> off + len <= zlen c + 1)
+  | OpSetOwn off => 0 <= off <= zlen c
   end.
 
 (* the length the property statement speaks of *)
@@ -690,11 +705,11 @@ Proof.
     + left. auto 10.
     + right. auto 10.
   - destruct Hwf as (Hr & Ho & Hin). destruct (inv_comp _ _ HI) as (id & c & Hc & Hz & Hh). rewrite Hc.
-    apply (set_len_spec al s bs0 (PHeap id off) len (zfirstn len (zskipn off bs0)) HI Hr).
-    intros Hl. destruct (Hin Hl) as [Hi Hov].
-    split; [rewrite zlen_zfirstn, zlen_zskipn; lia|]. split; [assumption|]. split; [lia|].
-    split; [lia|]. split; [assumption|reflexivity].
-  - destruct Hwf as (Ho & Hov). destruct (inv_comp _ _ HI) as (id & c & Hc & Hz & Hh). rewrite Hc.
+    apply (set_len_spec al s bs0 (PHeap id off) len (zfirstn len (zskipn off (bs0 ++ [0]))) HI Hr).
+    intros Hl. pose proof (Hin Hl) as Hi.
+    split; [rewrite zlen_zfirstn, zlen_zskipn, zlen_app; cbn [zlen]; lia|]. split; [assumption|]. split; [lia|].
+    split; [lia|reflexivity].
+  - pose proof Hwf as Ho. destruct (inv_comp _ _ HI) as (id & c & Hc & Hz & Hh). rewrite Hc.
     pose proof (holds_len _ _ Hh) as Hlc.
     destruct (cstr_nul (zskipn off bs0)) as (n & Hn & Rn & Hcs). rewrite Hcs in *.
     assert (Lsk : zlen (zskipn off bs0) = zlen bs0 - off) by (rewrite zlen_zskipn; lia).
@@ -706,7 +721,8 @@ Proof.
       rewrite zskipn_app_l by (rewrite zlen_map; lia). rewrite <- map_zskipn.
       rewrite c_strlen_cells_app. assumption. }
     assert (Hok : src_ok s bs0 (PHeap id off) n (zfirstn n (zskipn off bs0))).
-    { split; [assumption|]. split; [assumption|]. split; [lia|]. split; [lia|]. split; [assumption|reflexivity]. }
+    { split; [assumption|]. split; [assumption|]. split; [lia|]. split; [lia|].
+      rewrite zskipn_app_l by lia. rewrite zfirstn_app_l by lia. reflexivity. }
     pose proof (set_str_spec al s bs0 (PHeap id off) n _ HI Hsl (proj1 Rn) Hok) as S.
     destruct (set_string al s (PHeap id off)) as [s' ret ws|]; [|exact S].
     destruct S as [(-> & A & B & C & D)|(-> & -> & Hss & Hwhy)].
@@ -723,10 +739,11 @@ Theorem truncate_in_place al s bs0 n :
 Proof.
   intros HI Hn Hs.
   assert (Hwf : op_wf bs0 (OpSetOwnLen 0 n)).
-  { cbn [op_wf]. unfold INT_MIN, INT_MAX in *. split; [lia|]. split; [lia|]. intros _. split; [lia|left; reflexivity]. }
+  { cbn [op_wf]. unfold INT_MIN, INT_MAX in *. split; [lia|]. split; [lia|]. intros _. lia. }
   pose proof (step_spec al s bs0 _ HI Hwf) as S. pose proof (i_abs _ _ HI) as Ha.
   destruct (str_step al s (OpSetOwnLen 0 n)) as [s' ret ws|] eqn:E; [|contradiction].
   cbn [step_post op_bytes op_len] in S. rewrite zskipn_nonpos in S by lia.
+  rewrite zfirstn_app_l in S by lia.
   destruct S as [(-> & HI' & _ & _ & Hws & _)|(_ & _ & _ & [A|[A|[_ A]]])]; try lia.
   exists s', ws. split; [reflexivity|]. split; [assumption|]. split; [|assumption].
   (* no allocation request: the request counter only moves on the malloc path *)
@@ -1237,8 +1254,8 @@ Proof. vm_compute. repeat split. Qed.
 
 (* the order "copy, then release" is part of the model: had the old buffer been released
    before the copy (as in the zero-length branch, but for a non-zero length), a source inside
-   the node's own buffer would be read after its release — the model says UB; and a source
-   that partially overlaps its destination is UB as memcpy defines it *)
+   the node's own buffer would be read after its release — the model says UB; a source that
+   overlaps its destination is defined (memmove), and so is one that makes the string grow *)
 Example copy_before_free_matters :
   match new_string_len (fun _ _ => true) [1; 2; 3] 3 with
   | NOk s0 =>
@@ -1259,7 +1276,19 @@ Example copy_before_free_matters :
                | None => False
                end) /\
               (* partial overlap: json_object_set_string_len(o, json_object_get_string(o) + 1, 5) *)
-              str_step (fun _ _ => true) s1 (OpSetOwnLen 1 5) = SUB
+              (* overlapping source, json_object_set_string_len(o, json_object_get_string(o) + 1, 5):
+                 defined, the bytes are those before the call *)
+              (match str_step (fun _ _ => true) s1 (OpSetOwnLen 1 5) with
+               | SOk s2 r _ => r = 1 /\ get_string s2 = Some (map Some [66; 67; 68; 69; 70])
+               | SUB => False
+               end) /\
+              (* the contents together with their terminator: the grow branch, whose copy
+                 precedes the release of the buffer the source points into *)
+              (match str_step (fun _ _ => true) s1 (OpSetOwnLen 0 11) with
+               | SOk s2 r _ => r = 1 /\ get_string_len s2 = 11 /\ live_of_log (elog s2) = [2; 0] /\
+                               get_string s2 = Some (map Some [65; 66; 67; 68; 69; 70; 71; 72; 73; 74; 0])
+               | SUB => False
+               end)
           | None => False
           end
       | SUB => False
